@@ -12,7 +12,7 @@ def run(chk):
     pr = X.standard_proof(chk, "C01", thorough)
     ndocs = 3000 if thorough else 500
     styles = 6 if thorough else 3
-    docs = X.gen_docs(rng, ndocs, styles=styles)
+    docs = X.boundary_docs() + X.gen_docs(rng, ndocs, styles=styles)
     cases = []
     for i, (d, rs) in enumerate(docs):
         for t in rs:
@@ -40,7 +40,15 @@ def run(chk):
                        "the denotation computed from the abstract value (tools/gen/xmlgen.py denote); the real parser must "
                        "accept with empty rest and dump exactly those items (raw view); tie: the model's dump of the same text; "
                        "non-trivial = distinct rendering" % (ndocs, styles))
-    for t, a, exp, b in mfail[:3]:
+    narrow = [w for w in X.class_table_search(tabs) if w[3] and not w[2] and w[5] != "ok"]
+    for key, cp, _, _, text, out in narrow:
+        chk.violation("class_%s_%X" % (key, cp),
+                      "property C01: U+%04X is a legal %s character in XML 1.0 5th Ed., yet a well-formed document using it is "
+                      "not accepted\ninput (percent-encoded): %s\nimplementation: %s\n"
+                      "replay: printf 'accept\\t%s\\n' | harness/target/debug/xmlrs-driver\n"
+                      % (cp, key, lib.enc(text), out, lib.enc(text).replace("%", "%%")))
+        mfail.append((text, out, "ok", "ok"))
+    for t, a, exp, b in [m for m in mfail if len(m) == 4 and not (m[2] == "ok" and m[3] == "ok")][:3]:
         chk.violation("infoset_%s" % lib.enc(t)[:50],
                       "property C01: a well-formed document is not parsed to the infoset it denotes\n"
                       "input (percent-encoded): %s\nimplementation: %s\nexpected:       %s\nmodel:          %s\n"
